@@ -175,6 +175,17 @@ func (env *Env) binop(op token.Token, x, y Val, xt, yt, rt types.Type) Val {
 		case token.SUB:
 			return Val{T: env.arith(fmt.Sprintf("(- %s %s)", x.T, y.T), rt), S: rs}
 		case token.MUL:
+			_, xc := constIntTerm(x.T)
+			_, yc := constIntTerm(y.T)
+			if !xc && !yc && !env.quant {
+				// a product of two variables is outside linear arithmetic; the element widths that occur
+				// in practice (1, 2, 4, 8) are spelled out as tautologies so that the solvers can use them
+				p := fmt.Sprintf("(* %s %s)", x.T, y.T)
+				for _, ab := range [][2]string{{x.T, y.T}, {y.T, x.T}} {
+					env.fact(fmt.Sprintf("(and (=> (= %s 1) (= %s %s)) (=> (= %s 2) (= %s (* 2 %s))) (=> (= %s 4) (= %s (* 4 %s))) (=> (= %s 8) (= %s (* 8 %s))))",
+						ab[1], p, ab[0], ab[1], p, ab[0], ab[1], p, ab[0], ab[1], p, ab[0]))
+				}
+			}
 			return Val{T: env.arith(fmt.Sprintf("(* %s %s)", x.T, y.T), rt), S: rs}
 		case token.QUO:
 			return Val{T: env.arith(fmt.Sprintf("(godiv %s %s)", x.T, y.T), rt), S: rs}
